@@ -17,6 +17,8 @@ type FileEffect struct {
 	// for rename: class of the source and of the destination
 	From, To string
 	Ins      ssa.Instruction
+	// for create through os.OpenFile: the constant flags (Truncates: O_TRUNC or O_EXCL set, or os.Create)
+	Truncates bool
 }
 
 const (
@@ -45,18 +47,20 @@ func (p *Prog) FileEffectOf(ins ssa.Instruction) *FileEffect {
 	switch {
 	case funcIs(obj, "os", "", "OpenFile"):
 		kind := "open"
+		trunc := false
 		if fl, ok := constInt(arg(1)); ok {
 			if fl&oCREATE != 0 {
 				kind = "create"
 			}
+			trunc = fl&oTRUNC != 0 || fl&0x80 != 0
 		} else {
 			kind = "create" // unknown flags: assume the worst
 		}
-		return &FileEffect{Kind: kind, Class: p.pathClass(arg(0)), Ins: ins}
+		return &FileEffect{Kind: kind, Class: p.pathClass(arg(0)), Ins: ins, Truncates: trunc}
 	case funcIs(obj, "os", "", "Create"):
-		return &FileEffect{Kind: "create", Class: p.pathClass(arg(0)), Ins: ins}
+		return &FileEffect{Kind: "create", Class: p.pathClass(arg(0)), Ins: ins, Truncates: true}
 	case funcIs(obj, "os", "", "WriteFile"):
-		return &FileEffect{Kind: "create", Class: p.pathClass(arg(0)), Ins: ins}
+		return &FileEffect{Kind: "create", Class: p.pathClass(arg(0)), Ins: ins, Truncates: true}
 	case funcIs(obj, "os", "", "Open"):
 		return &FileEffect{Kind: "open", Class: p.pathClass(arg(0)), Ins: ins}
 	case funcIs(obj, "os", "", "Remove"), funcIs(obj, "os", "", "RemoveAll"):
@@ -280,19 +284,17 @@ func classifyConsts(cs []string) string {
 	return "unknown"
 }
 
-var pathClassMemo = map[ssa.Value]string{}
-
 func (p *Prog) pathClass(v ssa.Value) string {
 	if v == nil {
 		return "unknown"
 	}
-	if c, ok := pathClassMemo[v]; ok {
+	if c, ok := p.pathClassMemo[v]; ok {
 		return c
 	}
 	var cs []string
 	p.stringConsts(v, 0, map[ssa.Value]bool{}, &cs)
 	c := classifyConsts(cs)
-	pathClassMemo[v] = c
+	p.pathClassMemo[v] = c
 	return c
 }
 
